@@ -11,6 +11,8 @@
 // PART 5  : packed_dynamic_channel_reference<BF,Num> at first bit 0..7
 // PART 6,7: bit_aligned_pixel_reference (channels, semantic access, proxies, whole pixel, swap)
 // PART 8  : packed_pixel (byte-aligned objects with compile-time channel references, unused bits)
+// PART 10-13: the same pixel / iterator / row checks on the types the library's factories produce
+//            (bit_aligned_image{1..5}_type, packed_image{1..4}_type); the carrier they choose is reported as an observation
 // PART 9  : bit_aligned_pixel_iterator arithmetic, std::fill / std::copy through it, rows in tight heap blocks (ASan)
 // Host assumption: little endian (bit p of a BitField is bit p&7 of byte p>>3).
 #include <boost/gil.hpp>
@@ -597,6 +599,9 @@ struct it_ops {
     void (*copy)(const byte* s, int sbit, long i, long j, byte* d, int dbit, long k);  // std::copy(s+i, s+j, d+k)
     void (*copy_c)(const byte* s, int sbit, long i, long j, byte* d, int dbit, long k);  // the same from a const iterator
     void (*touch_all)(byte* p, int bit, long npix, uint64_t seed);                     // read+write every channel of npix pixels, fill, copy onto itself
+    int nch; int width[5];
+    void (*set_at)(byte* p, int bit, long i, int k, uint64_t v);                       // at_c<k>(it[i]) = v
+    uint64_t (*get_at)(const byte* p, int bit, long i, int k);                         // at_c<k>(const_it[i])
 };
 
 template <class It> static long bitpos(const It& it, const byte* a0) { return (long)(it.bit_range().current_byte() - a0) * 8 + it.bit_range().bit_offset(); }
@@ -661,6 +666,8 @@ template <class BF, class Sizes, class Layout> struct it_impl {
         touch_ch<K - 1>(r, acc);
     }
     template <int K> static typename std::enable_if<(K < 0)>::type touch_ch(Ref const&, uint64_t&) {}
+    static void set_at(byte* p, int bit, long i, int k, uint64_t v) { It it(p, bit); Ref r = it[i]; ch_dispatch<Ref, CRef, N - 1>::set(k, r, v); }
+    static uint64_t get_at(const byte* p, int bit, long i, int k) { CIt it(p, bit); CRef r = it[i]; return ch_dispatch<Ref, CRef, N - 1>::get(k, r); }
     static void touch_all(byte* p, int bit, long npix, uint64_t seed) {
         It it(p, bit);
         uint64_t acc = seed;
@@ -676,6 +683,8 @@ template <class BF, class Sizes, class Layout> struct it_impl {
 template <class BF, class Sizes, class Layout> static it_ops make_it_ops(const std::string& name) {
     typedef it_impl<BF, Sizes, Layout> I;
     it_ops o; o.name = name; o.bit_size = I::BS; o.arith = &I::arith; o.fill = &I::fill; o.copy = &I::copy; o.copy_c = &I::copy_c; o.touch_all = &I::touch_all;
+    o.nch = I::N; size_filler f{o.width, 0}; mp11::mp_for_each<Sizes>(f);
+    o.set_at = &I::set_at; o.get_at = &I::get_at;
     return o;
 }
 
@@ -755,6 +764,84 @@ static void iterator_cases(const it_ops& o) {
 }
 
 // =====================================================================================================
+// The library's own factory types: bit_aligned_image{1..5}_type / packed_image{1..4}_type.  The reference, iterator and
+// -- for bit-aligned images -- the bit-field carrier are whatever the factory chose; the carrier is reported as an
+// observation ("factory.<name>.carrier.<type>") so that a change of it shows in the evidence file.
+// =====================================================================================================
+template <class R> struct ba_params;
+template <class B, class C, class L, bool Mu> struct ba_params<gil::bit_aligned_pixel_reference<B, C, L, Mu>> { typedef B bf; typedef C sizes; typedef L layout; };
+
+// a row of pixels as an image would hold it: every pixel position of the row is written through x_iterator[i], so every
+// bit offset 0..7 occurs by itself (plus all eight start bits of the row); whole arena compared after each write
+static void factory_row_case(const it_ops& o) {
+    if (!vh::begin_case("factory-row", o.name)) return;
+    vh::rng r = vh::case_rng();
+    const long L = kSanitized ? 17 : (vh::thorough() ? 67 : 25);
+    arena A((size_t)(32 + (7 + L * o.bit_size + 7) / 8 + 32));
+    uint64_t evals = 0;
+    for (int bit = 0; bit < 8; ++bit) {
+        const long row0 = 32 * 8 + bit;
+        for (long i = 0; i < L; ++i) {
+            int ks = 0;
+            for (int k = 0; k < o.nch; ++k) {
+                const long w0 = row0 + i * o.bit_size + ks, w1 = w0 + o.width[k];
+                ks += o.width[k];
+                std::vector<uint64_t> values = o.width[k] <= 3 ? channel_values(o.width[k], r, 0) : std::vector<uint64_t>{0, low_mask(o.width[k]), 1, 0x5555555555555555ull & low_mask(o.width[k]), r.next() & low_mask(o.width[k]), r.next() & low_mask(o.width[k])};
+                for (int style = 0; style < 3; ++style) {
+                    A.fill(r, style == 0 ? 9 : style - 1);
+                    for (uint64_t v : values) {
+                        A.sync(); put_bits(A.exp.data(), w0, o.width[k], v);
+                        o.set_at(A.p(32), bit, i, k, v);
+                        c08::judge(A, w0, w1, vh::cat("row-channel", k, "-assign"), o.name, vh::cat(o.name, " row at bit ", bit, ", pixel ", i, " (bit offset ", (row0 + i * o.bit_size) & 7, "): channel ", k, " = ", v));
+                        const uint64_t back = o.get_at(A.p(32), bit, i, k);
+                        if (back != v) vh::viol(vh::cat("readback.row-channel", k, "-assign.", o.name), vh::cat(o.name, " row at bit ", bit, ", pixel ", i, " (bit offset ", (row0 + i * o.bit_size) & 7, "): channel ", k, " = ", v, " reads back ", back));
+                        ++evals;
+                    }
+                    // every channel of the pixel and of its neighbours reads what the bits say
+                    for (long q = std::max(0l, i - 1); q <= std::min(L - 1, i + 1); ++q) {
+                        int js = 0;
+                        for (int j = 0; j < o.nch; ++j) {
+                            const uint64_t want = get_bits(A.p(), row0 + q * o.bit_size + js, o.width[j]);
+                            const uint64_t got = o.get_at(A.p(32), bit, q, j);
+                            if (got != want) vh::viol(vh::cat("read.row-channel", j, ".", o.name), vh::cat(o.name, " row at bit ", bit, ", pixel ", q, " (bit offset ", (row0 + q * o.bit_size) & 7, "): channel ", j, " bits hold ", want, " get() returns ", got));
+                            js += o.width[j];
+                            ++evals;
+                        }
+                    }
+                }
+            }
+        }
+    }
+    vh::sample(vh::cat(o.name, ": rows of ", L, " pixels at start bits 0..7, every channel of every pixel position written through x_iterator[i], whole arena compared"));
+    vh::evals(evals); vh::distinct(evals);
+    vh::obs("factory.row");
+}
+
+template <class Img> static void factory_bit_aligned(const std::string& name, std::initializer_list<int> sem_to_phys) {
+    typedef typename std::remove_const<typename Img::view_t::reference>::type R;
+    typedef ba_params<R> P;
+    typedef typename P::bf BF; typedef typename P::sizes Sizes; typedef typename P::layout Layout;
+    static_assert(std::is_same<R, gil::bit_aligned_pixel_reference<BF, Sizes, Layout, true>>::value, "the factory's reference is a mutable bit_aligned_pixel_reference");
+    static_assert(std::is_same<typename Img::view_t::x_iterator, gil::bit_aligned_pixel_iterator<R>>::value, "the factory's x_iterator is the bit-aligned iterator over that reference");
+    static_assert(std::is_same<typename Img::value_type, typename R::value_type>::value, "the factory's value type is the reference's value type");
+    const std::string nm = "factory." + name;
+    vh::obs(vh::cat(nm, ".carrier.", bfname<BF>::s()));
+    pixel_case(ba_ops<BF, Sizes, Layout>(nm, sem_to_phys));
+    const it_ops io = make_it_ops<BF, Sizes, Layout>(nm);
+    iterator_cases(io);
+    factory_row_case(io);
+}
+template <class Img, class BF, class Sizes, class Layout> static void factory_packed(const std::string& name, std::initializer_list<int> sem_to_phys) {
+    typedef typename Img::value_type Pixel;
+    static_assert(std::is_same<Pixel, typename gil::packed_pixel_type<BF, Sizes, Layout>::type>::value, "the factory's pixel is the packed pixel over the stated bit field and channel sizes");
+    static_assert(std::is_same<typename Img::view_t::reference, Pixel&>::value && std::is_same<typename Img::view_t::x_iterator, Pixel*>::value, "packed images are addressed through plain pixel pointers");
+    static_assert(sizeof(Pixel) == sizeof(BF), "a packed pixel is exactly its bit field");
+    const std::string nm = "factory.pk." + name;
+    vh::obs(vh::cat(nm, ".carrier.", bfname<BF>::s()));
+    pixel_case(pk_ops<BF, Sizes, Layout>(nm, sem_to_phys));
+}
+
+// =====================================================================================================
 int main(int argc, char** argv) {
     vh::init(argc, argv);
     using mp11::mp_list_c;
@@ -815,7 +902,7 @@ int main(int argc, char** argv) {
     pixel_case(pk_ops<uint8_t, mp_list_c<unsigned, 3>, gil::gray_layout_t>("pk.gray3", {0}));
     pixel_case(pk_ops<uint8_t, mp_list_c<unsigned, 2, 2, 2, 2>, gil::rgba_layout_t>("pk.rgba2222", {0, 1, 2, 3}));
     pixel_case(pk_ops<uint32_t, mp_list_c<unsigned, 10, 10, 10>, gil::rgb_layout_t>("pk.rgb10", {0, 1, 2}));
-#else
+#elif C08_PART == 9
     iterator_cases(make_it_ops<uint8_t, mp_list_c<int, 1>, gil::gray_layout_t>("gray1"));
     iterator_cases(make_it_ops<uint16_t, mp_list_c<int, 2>, gil::gray_layout_t>("gray2"));
     iterator_cases(make_it_ops<uint16_t, mp_list_c<int, 4>, gil::gray_layout_t>("gray4"));
@@ -825,6 +912,33 @@ int main(int argc, char** argv) {
     iterator_cases(make_it_ops<uint32_t, mp_list_c<int, 4, 4, 4>, gil::rgb_layout_t>("rgb444"));
     iterator_cases(make_it_ops<uint32_t, mp_list_c<int, 5, 6, 5>, gil::rgb_layout_t>("rgb565"));
     iterator_cases(make_it_ops<uint64_t, mp_list_c<int, 8, 8, 8, 8, 8>, gil::devicen_layout_t<5>>("dev5x8"));
+#elif C08_PART == 10
+    // the library's factory types: gray 1..5 bits
+    factory_bit_aligned<gil::bit_aligned_image1_type<1, gil::gray_layout_t>::type>("gray1", {0});
+    factory_bit_aligned<gil::bit_aligned_image1_type<2, gil::gray_layout_t>::type>("gray2", {0});
+    factory_bit_aligned<gil::bit_aligned_image1_type<3, gil::gray_layout_t>::type>("gray3", {0});
+    factory_bit_aligned<gil::bit_aligned_image1_type<4, gil::gray_layout_t>::type>("gray4", {0});
+    factory_bit_aligned<gil::bit_aligned_image1_type<5, gil::gray_layout_t>::type>("gray5", {0});
+#elif C08_PART == 11
+    factory_bit_aligned<gil::bit_aligned_image1_type<6, gil::gray_layout_t>::type>("gray6", {0});
+    factory_bit_aligned<gil::bit_aligned_image1_type<7, gil::gray_layout_t>::type>("gray7", {0});
+    factory_bit_aligned<gil::bit_aligned_image3_type<1, 2, 1, gil::bgr_layout_t>::type>("bgr121", {2, 1, 0});
+    factory_bit_aligned<gil::bit_aligned_image3_type<2, 3, 2, gil::rgb_layout_t>::type>("rgb232", {0, 1, 2});
+    factory_bit_aligned<gil::bit_aligned_image3_type<1, 2, 3, gil::rgb_layout_t>::type>("rgb123", {0, 1, 2});
+#elif C08_PART == 12
+    factory_bit_aligned<gil::bit_aligned_image3_type<4, 4, 4, gil::rgb_layout_t>::type>("rgb444", {0, 1, 2});
+    factory_bit_aligned<gil::bit_aligned_image3_type<5, 6, 5, gil::rgb_layout_t>::type>("rgb565", {0, 1, 2});
+    factory_bit_aligned<gil::bit_aligned_image4_type<5, 5, 5, 1, gil::rgba_layout_t>::type>("rgba5551", {0, 1, 2, 3});
+    factory_bit_aligned<gil::bit_aligned_image2_type<3, 5, gil::devicen_layout_t<2>>::type>("dev35", {0, 1});
+    factory_bit_aligned<gil::bit_aligned_image5_type<1, 2, 3, 2, 1, gil::devicen_layout_t<5>>::type>("dev12321", {0, 1, 2, 3, 4});
+#else
+    // packed_image{1..4}_type factories
+    factory_packed<gil::packed_image1_type<uint8_t, 3, gil::gray_layout_t>::type, uint8_t, mp_list_c<unsigned, 3>, gil::gray_layout_t>("gray3", {0});
+    factory_packed<gil::packed_image2_type<uint8_t, 3, 5, gil::devicen_layout_t<2>>::type, uint8_t, mp_list_c<unsigned, 3, 5>, gil::devicen_layout_t<2>>("dev35", {0, 1});
+    factory_packed<gil::packed_image3_type<uint16_t, 5, 6, 5, gil::rgb_layout_t>::type, uint16_t, mp_list_c<unsigned, 5, 6, 5>, gil::rgb_layout_t>("rgb565", {0, 1, 2});
+    factory_packed<gil::packed_image3_type<uint16_t, 5, 5, 5, gil::bgr_layout_t>::type, uint16_t, mp_list_c<unsigned, 5, 5, 5>, gil::bgr_layout_t>("bgr555", {2, 1, 0});
+    factory_packed<gil::packed_image4_type<uint16_t, 4, 4, 4, 4, gil::rgba_layout_t>::type, uint16_t, mp_list_c<unsigned, 4, 4, 4, 4>, gil::rgba_layout_t>("rgba4444", {0, 1, 2, 3});
+    factory_packed<gil::packed_image4_type<uint8_t, 2, 2, 2, 2, gil::rgba_layout_t>::type, uint8_t, mp_list_c<unsigned, 2, 2, 2, 2>, gil::rgba_layout_t>("rgba2222", {0, 1, 2, 3});
 #endif
     return vh::finish();
 }
